@@ -4,4 +4,7 @@ set -u
 cd "$(dirname "$0")/harness"
 export CARGO_NET_OFFLINE=true
 cargo build --release --offline --workspace 2>&1 | tail -n 5
-exit ${PIPESTATUS[0]}
+rc=${PIPESTATUS[0]}
+# the libFuzzer targets (used by the thorough tier of C05 only): best effort, never fails the setup
+( cd fuzz && cargo +nightly fuzz build --fuzz-dir . >/dev/null 2>&1 ) || echo "note: cargo fuzz build failed (thorough C05 will report inconclusive)"
+exit $rc
